@@ -32,8 +32,9 @@ type cfgField struct {
 	sub   []cfgSub
 }
 type cfgSub struct {
-	key string
-	k   string
+	key  string
+	k    string
+	name string // Go field name of an inner field without a point tag ("" = tagged with key)
 }
 
 var scalarTypes = map[string]reflect.Type{
@@ -62,7 +63,12 @@ func parseCfgType(s string) []cfgField {
 		case 'T', 'Q':
 			for _, sub := range strings.Split(rest, "+") {
 				kv := strings.SplitN(sub, "=", 2)
-				f.sub = append(f.sub, cfgSub{string(unhx(kv[0])), kv[1]})
+				if strings.HasPrefix(kv[0], "^") {
+					name := string(unhx(kv[0][1:]))
+					f.sub = append(f.sub, cfgSub{key: data.ToCamelCase(name), k: kv[1], name: name})
+					continue
+				}
+				f.sub = append(f.sub, cfgSub{key: string(unhx(kv[0])), k: kv[1]})
 			}
 		}
 		out = append(out, f)
@@ -75,6 +81,10 @@ var structCache = map[string]reflect.Type{}
 func subStructType(sub []cfgSub) reflect.Type {
 	var fs []reflect.StructField
 	for i, s := range sub {
+		if s.name != "" {
+			fs = append(fs, reflect.StructField{Name: s.name, Type: scalarTypes[s.k]})
+			continue
+		}
 		fs = append(fs, reflect.StructField{Name: fmt.Sprintf("G%d", i), Type: scalarTypes[s.k],
 			Tag: reflect.StructTag(fmt.Sprintf(`point:%q`, s.key))})
 	}
